@@ -8,15 +8,20 @@ namespace Cjet.Daemon.C08
 
 open Cjet Cjet.Json Cjet.Daemon
 
-/-- unit `u` is a request of connection `c` that names a user of the credential table (found by
-    the case-folded lookup), presents exactly the password stored for it, and that record has
-    an "auth" object -/
-def VerifiedAuth (u : Unit) (c : Nat) : Prop :=
-  ∃ x req name pw usr auth, u = .req x c req ∧ getCredentials req = .ok name pw ∧
-    findUser x.st.users name = some usr ∧ usr.password = pw ∧ usr.auth = some auth
+/-- unit `u` is a request of the connection of `p'` that names a user of the credential table
+    (found by the case-folded lookup), presents exactly the password stored for it, that record
+    has an "auth" object, and the authentication fields of `p'` are the name presented and the
+    three words get_groups derives from that object -/
+def VerifiedAuth (cfg : Config) (u : Unit) (p' : Peer) : Prop :=
+  ∃ x req name pw usr auth, u = .req x p'.conn req ∧ getCredentials req = .ok name pw ∧
+    findUser x.st.users name = some usr ∧ usr.password = pw ∧ usr.auth = some auth ∧
+    p'.user = some name ∧
+    p'.fetchGroups = getGroups cfg (auth.getItem (k "fetchGroups")) ∧
+    p'.setGroups = getGroups cfg (auth.getItem (k "setGroups")) ∧
+    p'.callGroups = getGroups cfg (auth.getItem (k "callGroups"))
 
 theorem chain_auth {cfg : Config} {x x' : Ctx} {us : List Unit} (hc : Chain cfg x us x') (hI : FInv cfg x.st) :
-    ∀ p' ∈ x'.st.peers, (∃ p ∈ x.st.peers, AV p' = AV p) ∨ ∃ u ∈ us, VerifiedAuth u p'.conn := by
+    ∀ p' ∈ x'.st.peers, (∃ p ∈ x.st.peers, AV p' = AV p) ∨ ∃ u ∈ us, VerifiedAuth cfg u p' := by
   induction hc with
   | nil x => intro p' hp'; exact Or.inl ⟨p', hp', rfl⟩
   | cons hrest ih =>
@@ -35,11 +40,12 @@ theorem chain_auth {cfg : Config} {x x' : Ctx} {us : List Unit} (hc : Chain cfg 
           rw [hp, updatePeer_eq_map] at hp1
           obtain ⟨q, hq, rfl⟩ := List.mem_map.mp hp1
           by_cases hqc : (q.conn == c) = true
-          · refine Or.inr ⟨_, List.mem_cons_self .., x, req, name, pw, usr, auth, ?_, h1, h2, h3, h4⟩
+          · simp only [hqc, if_true] at e1
+            simp only [AV, authUpd, Prod.mk.injEq] at e1
+            obtain ⟨a1, a2, a3, a4, a5⟩ := e1
+            refine Or.inr ⟨_, List.mem_cons_self .., x, req, name, pw, usr, auth, ?_, h1, h2, h3, h4, a2, a3, a4, a5⟩
             have : p'.conn = c := by
-              rw [hconn]; simp only [hqc, if_true]
-              show q.conn = c
-              simpa using hqc
+              rw [a1]; simpa using hqc
             rw [this]
           · simp only [hqc] at e1
             exact Or.inl ⟨q, hq, e1⟩
@@ -58,7 +64,7 @@ theorem step_auth {cfg : Config} {s : State} (hI : Inv cfg s) (op : Op) :
     ∀ p' ∈ (step cfg s op).1.peers,
       (∃ p ∈ s.peers, AV p' = AV p) ∨
       (∃ ws il a, op = .connect p'.conn ws il a ∧ p'.user = none ∧ p'.fetchGroups = 0 ∧ p'.setGroups = 0 ∧ p'.callGroups = 0) ∨
-      (∃ u ∈ unitsOf cfg s op, VerifiedAuth u p'.conn) := by
+      (∃ u ∈ unitsOf cfg s op, VerifiedAuth cfg u p') := by
   cases hx : opCtx s op with
   | none =>
     obtain ⟨_, _, h3⟩ := step_noctx cfg s op hx
